@@ -114,21 +114,9 @@ Proof. apply L_stmts_of, L_stmt_all. Qed.
 Notation rel := (rel pv bound).
 Notation ctx_ok := (ctx_ok bound).
 
-(* the success part for a statement: the scope grows from sc to sc' *)
-Definition okstepS (sc sc' : list N) (e' : senv) (st' : sstate) (F : list N) (c c' : N)
-           (E : env) (stL : state) (b : block) (E' : env) (stL' : state) (F' : list N) : Prop :=
-  ExecS E b stL (ROk (E', SigNormal) stL') /\ wframe bound c c' E stL E' stL' /\
-  rel sc' e' st' E' stL' /\ F_new F F' c c' /\ keep sc E E'.
-
-(* the Sylt environment after the statement agrees with the one before on the old scope and on print *)
-Definition sext (sc : list N) (e e' : senv) : Prop :=
-  forall v, In v sc \/ v = pv -> SyltSem.lookup e' v = SyltSem.lookup e v.
-
-Lemma sext_refl sc e : sext sc e e. Proof. intros v _. reflexivity. Qed.
-Lemma sext_trans sc sc1 e e1 e2 : sext sc e e1 -> sext sc1 e1 e2 -> incl sc sc1 -> sext sc e e2.
-Proof.
-  intros H1 H2 Hi v Hv. rewrite H2; [apply H1; exact Hv|]. destruct Hv as [Hv| ->]; [left; apply Hi; exact Hv | right; reflexivity].
-Qed.
+Notation okstepS := (okstepS pv bound).
+Notation sext := (sext pv).
+Notation xpost := (exit_post pv bound).
 
 Lemma memN_false v l : memN v l = false -> ~ In v l.
 Proof.
@@ -299,35 +287,12 @@ Proof.
   intros Hc (_ & Hle & Hfr & _) (_ & Hf & _ & Hn & _). eapply ctx_step; eassumption.
 Qed.
 
-Lemma rel_shrink sc sc' e e' st E stL :
-  rel sc' e' st E stL -> incl sc sc' -> sext sc e e' -> rel sc e st E stL.
-Proof.
-  intros [Hv Hb Hi Hp Hpb HpE HpG Hwf Ht Hl] Hincl Hs. constructor.
-  - intros w Hw. destruct (Hv w (Hincl w Hw)) as (cc & x & p & H1 & H2 & H3 & H4).
-    exists cc, x, p. splits; auto. rewrite <- (Hs w (or_introl Hw)). exact H1.
-  - intros w Hw. apply Hb. apply Hincl. exact Hw.
-  - intros v1 v2 cc H1 H2 Ha Hb2. apply (Hi v1 v2 cc); auto.
-    + rewrite (Hs v1 (or_introl H1)). exact Ha.
-    + rewrite (Hs v2 (or_introl H2)). exact Hb2.
-  - destruct Hp as (cp & Hlkp & Hnthp & Hdist). exists cp. splits.
-    + rewrite <- (Hs pv (or_intror eq_refl)). exact Hlkp.
-    + exact Hnthp.
-    + intros w Hw. rewrite <- (Hs w (or_introl Hw)). apply Hdist. apply Hincl. exact Hw.
-  - exact Hpb.
-  - exact HpE.
-  - exact HpG.
-  - exact Hwf.
-  - exact Ht.
-  - exact Hl.
-Qed.
-
-Definition stmt_post (sc sc' : list N) (e : senv) (F : list N) (c c' : N) (E : env) (stL : state) (b : block)
+Definition stmt_post (ctx : N) (sc sc' : list N) (e : senv) (F : list N) (c c' : N) (E : env) (stL : state) (b : block)
            (r : SyltSem.res senv) (st' : sstate) : Prop :=
   match r with
   | SyltSem.RVal e' =>
       exists E' stL' F', okstepS sc sc' e' st' F c c' E stL b E' stL' F' /\ sext sc e e' /\ incl sc sc'
-  | SyltSem.RStop o => stop_post E stL b st'
-  | SyltSem.RAbrupt _ => True
+  | _ => xpost ctx sc e c c' E stL b r st'
   end.
 
 Definition P_exec (n : nat) : Prop :=
@@ -335,14 +300,14 @@ Definition P_exec (n : nat) : Prop :=
     SyltSem.exec n e s st = (r, st') -> statement g s ctx c = Ok (code, c') ->
     frag_stmt pv sv bound k sc s = Some sc' -> ucovers u code -> ctx_ok l F E c c' -> rel sc e st E stL ->
     interesting r ->
-    exists b l', cshape u l code b l' c c' /\ stmt_post sc sc' e F c c' E stL b r st'.
+    exists b l', cshape u l code b l' c c' /\ stmt_post ctx sc sc' e F c c' E stL b r st'.
 
 Definition P_execs (n : nat) : Prop :=
   forall g k ss ctx c cs c' e st r st' sc sc' l E stL F,
     SyltSem.exec_block n e ss st = (r, st') -> mapM (fun s => statement g s ctx) ss c = Ok (cs, c') ->
     frag_stmts pv sv bound k sc ss = Some sc' -> ucovers u (concat cs) -> ctx_ok l F E c c' -> rel sc e st E stL ->
     interesting r ->
-    exists b l', cshape u l (concat cs) b l' c c' /\ stmt_post sc sc' e F c c' E stL b r st'.
+    exists b l', cshape u l (concat cs) b l' c c' /\ stmt_post ctx sc sc' e F c c' E stL b r st'.
 
 Lemma P_stmt_zero : P_exec O /\ P_execs O.
 Proof.
@@ -375,12 +340,16 @@ Proof.
     assert (Hctxs : ctx_ok l F E c c1) by (eapply ctx_sub; [exact Hctx | lia | lia]).
     cbn [SyltSem.exec_block] in Hev. unfold SyltSem.bind at 1 in Hev.
     destruct (SyltSem.exec n e s st) as [[e1|o|cc] st1] eqn:He1.
-    3: { inversion Hev; subst. destruct Hint. }
     2: { inversion Hev; subst.
-         destruct (IHs g k s ctx c y c1 e st _ st' sc sc1 l E stL F He1 Hy Hfs Huy Hctxs Hrel Hint) as (b1 & l1 & Hs1 & ev & stL1 & Hx1 & Htr).
+         destruct (IHs g k s ctx c y c1 e st _ st' sc sc1 l E stL F He1 Hy Hfs Huy Hctxs Hrel Hint) as (b1 & l1 & Hs1 & Hp1).
          destruct (Hrest l1) as (b2 & l2 & Hs2).
          eexists _, _. split; [eapply cshape_app; eassumption|].
-         exists ev, stL1. split; [apply ExecS_app_stop; [exact Hx1 | intros []] | exact Htr]. }
+         cbn [stmt_post] in *. eapply exit_app; [exact Hp1 | lia]. }
+    2: { inversion Hev; subst.
+         destruct (IHs g k s ctx c y c1 e st _ st' sc sc1 l E stL F He1 Hy Hfs Huy Hctxs Hrel Hint) as (b1 & l1 & Hs1 & Hp1).
+         destruct (Hrest l1) as (b2 & l2 & Hs2).
+         eexists _, _. split; [eapply cshape_app; eassumption|].
+         cbn [stmt_post] in *. eapply exit_app; [exact Hp1 | lia]. }
     destruct (IHs g k s ctx c y c1 e st _ st1 sc sc1 l E stL F He1 Hy Hfs Huy Hctxs Hrel I)
       as (b1 & l1 & Hs1 & E1 & stL1 & F1 & Hok1 & Hse1 & Hinc1).
     pose proof Hok1 as (Hx1 & _ & Hrel1 & _).
@@ -388,11 +357,12 @@ Proof.
     destruct (IHss g k ss ctx c1 ys c' e1 st1 r st' sc1 sc' l1 E1 stL1 F1 Hev Hys Hfrag Huys Hctx1 Hrel1 Hint)
       as (b2 & l2 & Hs2 & Hpost).
     eexists _, _. split; [eapply cshape_app; eassumption|].
-    destruct r as [e2|o|cc]; [| |exact I].
+    destruct r as [e2|o|cc].
     + destruct Hpost as (E2 & stL2 & F2 & Hok2 & Hse2 & Hinc2).
       exists E2, stL2, F2. split; [eapply okstepS_trans; eassumption|].
       split; [eapply sext_trans; eassumption | eapply incl_tran; eassumption].
-    + destruct Hpost as (ev & stL2 & Hx2 & Htr). exists ev, stL2. split; [eapply ExecS_app; eassumption | exact Htr].
+    + cbn [stmt_post] in *. eapply (exit_pre pv bound ctx sc sc1 e e1 st st1); eassumption.
+    + cbn [stmt_post] in *. eapply (exit_pre pv bound ctx sc sc1 e e1 st st1); eassumption.
 Qed.
 
 
@@ -429,15 +399,24 @@ Proof.
     cbn [SyltSem.exec] in Hev. unfold SyltSem.bind at 1 in Hev. rewrite new_cell_eq in Hev.
     fold e' in Hev. unfold SyltSem.bind at 1 in Hev.
     destruct (SyltSem.eval n e' value (s_alloc st (SV Values.VLuaNil))) as [[v_|o|cc] st1] eqn:He1.
-    3: { inversion Hev; subst. destruct Hint. }
     2: { inversion Hev; subst.
          destruct (P_eval_all pv bound u n g' k value ctx c code_v rv c' e' _ _ st' (var :: sc) l E1 stL1 F He1 Hm Hfe Huv Hctx1 Hrel1 Hint)
-           as (b1 & l1 & Hs1 & _ & _ & ev & stL2 & Hx2 & Htr).
+           as (b1 & l1 & Hs1 & _ & _ & Hp1).
          eexists _, _. split.
          - eapply cshape_cons; [exact Hsd|]. eapply cshape_app; [exact Hs1|].
            apply (cshape_plain u l1 (IAssign var rv) c' c'); [lia | reflexivity | reflexivity | apply used_plain].
-         - exists ev, stL2. split; [|exact Htr].
-           eapply ExecS_app; [exact Hxd|]. apply ExecS_app_stop; [exact Hx2 | intros []]. }
+         - cbn [stmt_post eval_post] in *.
+           eapply (exit_pre pv bound ctx sc (var :: sc) e e' st (s_alloc st (SV Values.VLuaNil)));
+             [exact Hokd | exact Hrel | exact Hse | apply incl_tl, incl_refl | eapply exit_app; [exact Hp1 | apply N.le_refl] | lia | lia]. }
+    2: { inversion Hev; subst.
+         destruct (P_eval_all pv bound u n g' k value ctx c code_v rv c' e' _ _ st' (var :: sc) l E1 stL1 F He1 Hm Hfe Huv Hctx1 Hrel1 Hint)
+           as (b1 & l1 & Hs1 & _ & _ & Hp1).
+         eexists _, _. split.
+         - eapply cshape_cons; [exact Hsd|]. eapply cshape_app; [exact Hs1|].
+           apply (cshape_plain u l1 (IAssign var rv) c' c'); [lia | reflexivity | reflexivity | apply used_plain].
+         - cbn [stmt_post eval_post] in *.
+           eapply (exit_pre pv bound ctx sc (var :: sc) e e' st (s_alloc st (SV Values.VLuaNil)));
+             [exact Hokd | exact Hrel | exact Hse | apply incl_tl, incl_refl | eapply exit_app; [exact Hp1 | apply N.le_refl] | lia | lia]. }
     destruct (P_eval_all pv bound u n g' k value ctx c code_v rv c' e' _ _ st1 (var :: sc) l E1 stL1 F He1 Hm Hfe Huv Hctx1 Hrel1 I)
       as (b1 & l1 & Hs1 & _ & _ & E2 & stL2 & F2 & Hok2 & Hd2). specialize (Hd2 Hcrv).
     pose proof Hok2 as (_ & _ & Hrel2 & _).
@@ -457,7 +436,9 @@ Proof.
     destruct (frag_stmts pv sv bound k sc statements) as [sc1|] eqn:Hs; [|discriminate Hfrag]. inversion Hfrag; subst sc'.
     cbn [SyltSem.exec] in Hev. unfold SyltSem.bind at 1 in Hev.
     destruct (SyltSem.exec_block n e statements st) as [[e1|o|cc] st1] eqn:He1.
-    3: { inversion Hev; subst. destruct Hint. }
+    2: { inversion Hev; subst.
+         destruct (IHss g k statements ctx c cs c' e st _ st' sc sc1 l E stL F He1 Hm Hs Hu Hctx Hrel Hint) as (b1 & l1 & Hs1 & Hpost).
+         eexists _, _. split; [exact Hs1 | exact Hpost]. }
     2: { inversion Hev; subst.
          destruct (IHss g k statements ctx c cs c' e st _ st' sc sc1 l E stL F He1 Hm Hs Hu Hctx Hrel Hint) as (b1 & l1 & Hs1 & Hpost).
          eexists _, _. split; [exact Hs1 | exact Hpost]. }
@@ -473,7 +454,10 @@ Proof.
     destruct a as [code_v rv]. cbn [fst] in *.
     cbn [SyltSem.exec] in Hev. unfold SyltSem.bind at 1 in Hev.
     destruct (SyltSem.eval n e value st) as [[v_|o|cc] st1] eqn:He1.
-    3: { inversion Hev; subst. destruct Hint. }
+    2: { inversion Hev; subst.
+         destruct (P_eval_all pv bound u n g k value ctx c code_v rv c' e _ _ st' sc l E stL F He1 Hm Hfe Hu Hctx Hrel Hint)
+           as (b1 & l1 & Hs1 & _ & _ & Hpost).
+         eexists _, _. split; [exact Hs1 | exact Hpost]. }
     2: { inversion Hev; subst.
          destruct (P_eval_all pv bound u n g k value ctx c code_v rv c' e _ _ st' sc l E stL F He1 Hm Hfe Hu Hctx Hrel Hint)
            as (b1 & l1 & Hs1 & _ & _ & Hpost).
